@@ -6,7 +6,7 @@
    `zspace_to_kms`.  (Own name types, so that this record does not depend on the regenerated Gen.v.) *)
 From Coq Require Import ZArith QArith List Bool.
 From Abacus.Common Require Import Num.
-From Abacus.C05 Require Import Expr.
+From Abacus.HaloTable Require Import Expr.
 Import ListNotations.
 
 Inductive fcol := f_sigmav3d | f_sigmavMin | f_sigmavMid | f_sigmavMaj.
